@@ -1,4 +1,5 @@
 import RosuModel.Lemmas.ManiaPatternPath
+import RosuModel.Lemmas.ManiaPatternTime
 
 /-!
 # C19 (mania clause) — the pattern generators place every note below the key count
@@ -81,6 +82,28 @@ theorem generators_deterministic {A : PArith F} (total : Nat) (cd : F) (fuel : N
     (st st' : ConvSt) (o o' : ObjIn F) (hst : st = st') (ho : o = o') :
     convertStep A total cd fuel st o = convertStep A total cd fuel st' o' := by
   subst hst; subst ho; rfl
+
+/-- **(c) non-negative durations of slider notes.**  For every PRNG state, flag combination, key
+count, previous pattern and ANY arithmetic: if the dispatcher passes `start_time ≤ end_time` and
+`segment_duration ≥ 0` (what `PathObjectPatternGenerator::new` computes for a slider of
+non-negative length and positive beat length), every note `new_slider_note(column, s, e)` of every
+returned pattern has `s ≤ e` — a circle when equal, else a hold of duration `e − s ≥ 0`.  (Circles of
+the hit-object generator carry the object's own time; the spinner generator emits a hold only when
+`end_time − start_time >= 100.0`.) -/
+theorem path_generator_durations_nonneg {A : PArith F} (g : PathIn F) (hse : g.startT ≤ g.endT)
+    (hseg : 0 ≤ g.seg) (s : Osu) (ps : List Pat) (s' : Osu) (h : pathGenerate A g s = .ok (ps, s')) :
+    ∀ p ∈ ps, ∀ n ∈ p.notes, ∀ a b, n.time = .span a b → a ≤ b := by
+  intro p hp n hn a b hab
+  have := pathGenerate_t g hse hseg s _ h p hp n hn
+  rw [hab] at this
+  exact this
+
+/-- The hypothesis is needed: an end time before the start time (negative slider length or beat
+length) is passed through unchanged — 1K, `start = 1000`, `end = 900` yields a hold of −100 ms. -/
+example :
+    ((pathGenerate exactArith ⟨1, 0, 0, 0, Pat.empty, 0, 1, 1000, 900, -100, [], 10⟩ (Osu.new 0)).map
+      (fun r => r.1.map (fun p => p.notes.map (·.time)))).toOption = some [[.span 1000 900]] := by
+  decide +kernel
 
 /-! ### non-vacuity: concrete runs of the exact instance -/
 
